@@ -694,7 +694,7 @@ func runC14(c c14Case) *Violation {
 func TestC14(t *testing.T) {
 	Ev.Rule = "case = (MemoryMetaStore | FileSystemDataStore as MetaStore) x one of: window — a sequential history of flushes and merges in which a complete match-all probe query runs before and after EVERY CreateFile/Close/Abort/Update/TombstoneFile call of the flush or merge (inside every publish, commit and cleanup window); span — a query whose MetaStore iteration is paused after 0-3 candidates (in a third of the span cases: 66-140 single-row files, paused at candidate 0-70) while a whole Merge (or flush) commits, then resumed; the querying engine is never started, started, or already stopped; stress — 1-3 writers, optional merger and 1-3 queriers running freely for 40-150 ms. Oracle: Err()==nil => every id acknowledged before the query started exactly once, no id twice; never an id that was not ingested; Err!=nil imposes nothing else. Violations on the filesystem MetaStore whose affected ids are exactly rows of the Merge in progress are attributed to the two listed known findings (duplicates in the publish window, omissions when the scan listed the directory before the commit); everything else is a violation. Non-trivial: a probe ran inside a commit window, or a commit happened inside the paused query, or a stress query overlapped a merge; distinct by case."
 	Ev.Assumptions = []string{"free-running interleavings are sampled, not owned", "on the filesystem MetaStore, stress queries that overlap a Merge and disagree are excluded (the gated phases judge that window precisely)"}
-	runChecks(t, "snapshots", 150, 3000, genC14(), runC14)
+	runChecks(t, "snapshots", 150, 24000, genC14(), runC14)
 }
 
 var _ = strings.Contains
